@@ -83,6 +83,7 @@ pub struct World {
     pub chunk: usize,
     pub temp_mode: Option<u32>,
     pub link_from: Option<String>,
+    pub src_skew_ns: i64,
     attached: bool,
 }
 
@@ -139,6 +140,7 @@ impl World {
             chunk: 8192,
             temp_mode: None,
             link_from: None,
+            src_skew_ns: 0,
             attached: false,
         }
     }
@@ -181,6 +183,7 @@ impl World {
             chunk: self.chunk,
             temp_mode: self.temp_mode,
             link_from: self.link_from.clone(),
+            src_skew_ns: self.src_skew_ns,
         }
     }
 
